@@ -375,9 +375,11 @@ func runC06(cfg *Config) *Report {
 	cf.b.WriteString(coqRelLib())
 	progs := c06Programs(cfg)
 	r := newRand(cfg.Seed + 17)
+	confirmedTimeouts := 0
 	for i, g := range progs {
 		desc := "gomini.Run " + g.show()
-		if cfg.Only >= 0 && cfg.Only != i {
+		if (cfg.Only >= 0 && cfg.Only != i) || len(rep.Violations) >= 10 {
+			// (with 10 violations on record the rest of the shard adds nothing; every hanging search costs its full time limit)
 			cf.add("C06Skip")
 			rep.CaseDesc = append(rep.CaseDesc, "")
 			rep.CaseObs = append(rep.CaseObs, "")
@@ -418,8 +420,14 @@ func runC06(cfg *Config) *Report {
 			// a slow machine is not a lost wake-up: before a missing answer / a missing close is reported, the run is repeated
 			// with a generous limit
 			retry := func() {
+				if confirmedTimeouts >= 3 {
+					return // three searches of this shard already hung through the generous limit as well: this is not machine load
+				}
 				rep.hist("retried after a timeout")
 				ro = runOnce(g, sc, limit, 4*tmo)
+				if ro.how == "timeout" {
+					confirmedTimeouts++
+				}
 			}
 			if finite && ro.how == "timeout" {
 				retry()
